@@ -1,9 +1,85 @@
 import Driver.Util
-/-! driver ops of C17 (prefix `c17.`); filled in by the C17 work -/
+import Model.Cache
+/-! driver ops of C17 (prefix `c17.`)
+
+`c17.lru <intended 0|1> <max_size> <t0> op…`   → `ok tok…`  one token per op: `out|ring|max|H/M`
+`c17.cache <interval> <t0> op…`                → `ok tok…`  one token per op: `out|data(sorted)|next_cleaning|H/M`
+
+ops: `g<k>` get, `p<k>:<v>:<exp>` put, `f<k>` flush(key), `F` flush(), `s<int>` set_max_size, `a<dt>` clock += dt,
+`h` hits(), `m` misses(), `k<k>` get_hits_for_key, `r` reset_statistics, `S` get_statistics_snapshot.
+-/
 namespace Driver
-open Model
+open Model.Cache
+
+def parseOp17 (s : String) : Option Op :=
+  match s.toList with
+  | [] => none
+  | c :: rest =>
+    let a := String.ofList rest
+    match c with
+    | 'g' => a.toNat?.map Op.get
+    | 'f' => a.toNat?.map Op.flush
+    | 'F' => if rest.isEmpty then some Op.flushAll else none
+    | 's' => a.toInt?.map Op.setMax
+    | 'a' => a.toNat?.map Op.adv
+    | 'h' => if rest.isEmpty then some Op.hits else none
+    | 'm' => if rest.isEmpty then some Op.misses else none
+    | 'k' => a.toNat?.map Op.hitsFor
+    | 'r' => if rest.isEmpty then some Op.reset else none
+    | 'S' => if rest.isEmpty then some Op.snapshot else none
+    | 'p' =>
+      match a.splitOn ":" with
+      | [k, v, e] => do
+        let k ← k.toNat?
+        let v ← v.toNat?
+        let e ← e.toNat?
+        some (Op.put k { val := v, exp := e })
+      | _ => none
+    | _ => none
+
+def showOut17 : Out → String
+  | .none => "N"
+  | .val v => "V" ++ toString v
+  | .num n => "#" ++ toString n
+  | .unit => "U"
+  | .stats h m => "T" ++ toString h ++ "/" ++ toString m
+
+def joinOrDash (xs : List String) : String := if xs.isEmpty then "-" else ",".intercalate xs
+
+def showRing (r : List Node) : String :=
+  joinOrDash (r.map fun n => s!"{n.key}:{n.ans.val}:{n.ans.exp}:{n.hits}")
+
+def insertByKey (p : Key × Ans) : List (Key × Ans) → List (Key × Ans)
+  | [] => [p]
+  | q :: rest => if p.1 ≤ q.1 then p :: q :: rest else q :: insertByKey p rest
+
+def showData (d : List (Key × Ans)) : String :=
+  joinOrDash ((d.foldr insertByKey []).map fun p => s!"{p.1}:{p.2.val}:{p.2.exp}")
+
+def traceL (intended : Bool) : LState → List Op → List String
+  | _, [] => []
+  | s, op :: rest =>
+    let r := stepL intended s op
+    s!"{showOut17 r.2}|{showRing r.1.ring}|{r.1.maxSize}|{r.1.hits}/{r.1.misses}" :: traceL intended r.1 rest
+
+def traceC : CState → List Op → List String
+  | _, [] => []
+  | s, op :: rest =>
+    let r := stepC s op
+    s!"{showOut17 r.2}|{showData r.1.data}|{r.1.nextCleaning}|{r.1.hits}/{r.1.misses}" :: traceC r.1 rest
 
 def handleC17 : List String → Option String
+  | "c17.lru" :: intended :: mx :: t0 :: ops => do
+    let i ← parseBool intended
+    let mx ← mx.toInt?
+    let t0 ← t0.toNat?
+    let ops ← ops.mapM parseOp17
+    some (" ".intercalate ("ok" :: traceL i (initL mx t0) ops))
+  | "c17.cache" :: interval :: t0 :: ops => do
+    let iv ← interval.toNat?
+    let t0 ← t0.toNat?
+    let ops ← ops.mapM parseOp17
+    some (" ".intercalate ("ok" :: traceC (initC iv t0) ops))
   | _ => none
 
 end Driver
